@@ -9,3 +9,4 @@ import Norad.Props.C09
 #print axioms C09.api_built_fonts_safe
 #print axioms C09.save_frame
 #print axioms C09.save_tree_depends_only_on_font
+#print axioms C09.exactly_the_determined_files
